@@ -258,7 +258,7 @@ func cmdRun(args []string) int {
 			fatal("harness %s not found in %s", h.name, h.pkgDir)
 		}
 		cfg := &interp.Config{Tier: *tier, QueryMs: tc.queryMs, FeasMs: tc.feasMs, MaxPaths: tc.maxPaths, MaxSteps: tc.maxSteps,
-			MaxDepth: tc.maxDepth, Workers: nw, Seed: seed, MaxViol: 5, ModulePath: module}
+			MaxDepth: tc.maxDepth, Workers: nw, Seed: seed, MaxViol: 100, ModulePath: module}
 		r := interp.RunHarness(prog, fn, cfg, sizes)
 		r.Name = h.name
 		results = append(results, r)
